@@ -23,6 +23,27 @@ RUN_NONCE = 'run'
 PRE_META = ResultMeta(start=datetime(2020, 1, 2, 3, 4, 5, 678901), duration=timedelta(seconds=1.5))
 
 
+@contextlib.contextmanager
+def _alarm(seconds: float):
+    """Hard per-case watchdog for calls that never return to the harness (e.g. a wait() that blocks for ever): a real-time
+    timer whose handler raises HarnessTimeout in the main thread. Timers are not inherited by forked children."""
+    import signal
+    import threading
+    if threading.current_thread() is not threading.main_thread():
+        yield
+        return
+
+    def handler(signum, frame):
+        raise HarnessTimeout('case watchdog (timer) expired: run_tasks did not return')
+    old = signal.signal(signal.SIGALRM, handler)
+    signal.setitimer(signal.ITIMER_REAL, seconds)
+    try:
+        yield
+    finally:
+        signal.setitimer(signal.ITIMER_REAL, 0)
+        signal.signal(signal.SIGALRM, old)
+
+
 def scratch_root() -> str:
     return os.environ.get('VERIF_SCRATCH') or tempfile.gettempdir()
 
@@ -125,7 +146,7 @@ def execute_case(spec: dict, *, chooser: Optional[Chooser] = None, gated: bool =
         displays = lab_spec.get('displays', False)
         sink = open(os.path.join(d, 'display.txt'), 'w')
         try:
-            with contextlib.redirect_stderr(sink):
+            with contextlib.redirect_stderr(sink), _alarm(deadline_s + 5.0):
                 try:
                     res = lab.run_tasks(built.requested, bust_cache=lab_spec.get('bust_cache', False),
                                         disable_progress=not displays, disable_top=not displays)
